@@ -156,7 +156,14 @@ func (h *hasher) val(v Value) (uint64, uint64) {
 		}
 		return a, b
 	case *SymBuf:
+		if x == nil {
+			return 0x5d, 0x5e
+		}
 		return x.hash(h)
+	case SymBufElem:
+		a, b := x.Buf.hash(h)
+		i1, i2 := x.Idx.Hash()
+		return mix(a, i1), mix(b, i2)
 	}
 	panic(abort{kind: "internal", msg: "hash: unknown value type " + valString(v)})
 }
